@@ -93,7 +93,7 @@ fn cases(tier: Tier) -> Vec<Case> {
         }
     }
     // a menu of LARGE layouts (sizes around powers of two), each relation of b's list to a's
-    for size in [7usize, 8, 9, 15, 16, 17, 33, 63, 64, 65, 70, 130] {
+    for size in [7usize, 8, 9, 15, 16, 17, 33, 63, 64, 65, 70, 130, 257] {
         for relation in 0..9u8 {
             out.push(Case { nuni: 0, a: NumSpec::constant(1.5), b: NumSpec::constant(-2.5), storage: 0, large: Some((size, relation)) });
         }
@@ -763,6 +763,22 @@ pub fn check(case: &Case, idx: u64, acc: &mut Acc) {
             }
         }
     }
+    // ---------------- one operand created on another thread
+    if idx % 16 == 0 {
+        let (sat, ut) = (sa.clone(), u.clone());
+        let (at1, at2) = std::thread::spawn(move || (sat.dual(&ut), sat.dual2(&ut))).join().expect("builder thread");
+        let (b1, b2) = (sb.dual(&u), sb.dual2(&u));
+        acc.evals_add(2);
+        if let Err(e) = cmp_dual(&(&at1 * &b1), &sa.refd1().mul(&sb.refd1()), &u, TOL, TOL) {
+            acc.violate("other-thread/Dual/mul", idx, cj(), json!("by-name reference"), json!(e));
+        }
+        if let Err(e) = cmp_dual2(&(&b2 + &at2), &sb.refd2().add(&sa.refd2()), &u, TOL, TOL, TOL) {
+            acc.violate("other-thread/Dual2/add", idx, cj(), json!("by-name reference"), json!(e));
+        }
+        if (at1 == b1) != ref_eq(&sa.refd1(), &sb.refd1(), false) {
+            acc.violate("other-thread/Dual/eq", idx, cj(), json!(ref_eq(&sa.refd1(), &sb.refd1(), false)), json!(at1 == b1));
+        }
+    }
     // ---------------- non-standard memory layouts: the same numbers built through `clone_from` with a reversed-memory
     // gradient (and a column-major second-derivative array) are the same numbers
     {
@@ -875,7 +891,7 @@ pub fn run(ctx: &Ctx, replay_file: Option<String>) -> ! {
          Non-trivial: pairs whose vars_cmp class (observed through the public vars_cmp) is not ArcEquivalent; the run \
          refuses to report if any of the five classes or the 'equal pair' class is empty. Oracle: by-name RefDual \
          result, union of names each once, matching shapes, == iff equal by name with missing == 0, also when a zero derivative is written -0.0 (negative-zero twin of every operand that has a zero entry). Non-standard memory layouts: every operand is also built through clone_from with a reversed-memory gradient and a column-major second-derivative array and must equal its standard form, compare with the other operand as that does, and add / multiply to the by-name reference. The re-alignment entry points (to_union_vars, to_combined_vars, to_new_vars onto a covering list, new_from) leave every number unchanged by name on one shared list. Layout differential: five derivative tables (products near the largest double, subnormal products, ordinary, mixed, signed zeros) combined under five layouts (shared list, separate, re-ordered, extra zero-derivative name, both) must give bit-identical results by name for + - * /, the stored half-Hessian included. History independence: on one thread the 65 x 65 ordered pairs of layouts over 4 names are combined (+, *, /, ==) one after the other, forwards and backwards, each operand built fresh. In addition a \
-         menu of LARGE layouts (7 .. 17, 33, 63, 64, 65, 70, 130 names, non-dyadic derivative values) x 9 relations of the \
+         menu of LARGE layouts (7 .. 17, 33, 63, 64, 65, 70, 130, 257 names, non-dyadic derivative values) x 9 relations of the \
          second list to the first (same, rotated, reversed, every other name, superset, disjoint, overlapping, ends fixed \
          with the middle reversed, thinned and pairwise swapped) against a dense by-name reference.",
         json!({"names": ctx.tier.pick(3, 4), "cases": cs.len(), "value_pairs": [[1.5, -2.5], [1.5, 1.5]]}),
